@@ -5,6 +5,7 @@
 package pfcpiface
 
 import (
+	"os"
 	"encoding/json"
 	"fmt"
 	"testing"
@@ -217,7 +218,7 @@ func c02Oracle(c *stepCtx) {
 
 func newSessSys(ex *seqExplorer, res *vResult, cfg vCfg, alphabet func(s *sessSys) []sessReq, oracles ...func(c *stepCtx)) *sessSys {
 	in := newVInst(cfg)
-	s := &sessSys{ex: ex, res: res, in: in, m: newRefAgent(len(in.conns)), alphabet: alphabet, oracles: oracles}
+	s := &sessSys{ex: ex, res: res, in: in, m: newRefAgent(len(in.conns)), alphabet: alphabet, oracles: oracles, afterRefusal: os.Getenv("VERIF_NO_AFTER_REFUSAL") == ""}
 	in.conns[0].seq = 0xFFFFFE // sequence numbers cross the 24-bit boundary on the first association
 	return s
 }
